@@ -200,6 +200,16 @@ def run(chk, ctx) -> None:
             return None
     r = _To11(chk)
     _max_amount(r, ctx)      # fixed-limit: exactly the fixed size; pot-limit: up to the pot; no-limit: up to the stack
+    # pot-limit: "the pot" is the pot-sized raise over everything on the table (bets in front of the players + every collected pot, rake included)
+    from .c03 import _pot_sized
+    from .c01 import total_pot
+    from .helpers import foreign
+    foreign(chk, _pot_sized, chk, ctx, 'C11.semantics')
+    foreign(chk, total_pot, chk, ctx, 'C11.semantics')
+    # split games: a (side) pot is halved only when one of ITS contenders holds a hand of each type (the split clauses of C02)
+    from .c02 import _types
+    from .helpers import Refile
+    foreign(chk, _types, Refile(chk, {'C02.types_depend_on_pot': 'C11.split', 'C02.types_depend_on_board': 'C11.split'}), ctx)
     _cap_semantics(chk, ctx)   # a bet/raise is refused once the per-street cap is reached; every bet/raise counts towards it
     chk.floor('C11.semantics', 4)
     _defaults(chk, ctx, variants)
